@@ -129,6 +129,8 @@ class Executor:
             return z3.Length(v.t) > 0
         if isinstance(v, VABytes):
             return v.n > 0
+        if isinstance(v, VListView):
+            return self.length(state, v).t > 0
         if isinstance(v, VReal):
             return v.t != 0
         if isinstance(v, VTuple):
@@ -343,6 +345,9 @@ class Executor:
                 return VInt(z3.Length(a.t))
             if isinstance(a, VABytes):
                 return VInt(a.n)
+            if isinstance(a, VListView):
+                from . import models
+                return VInt(z3.Length(models.lv_seq(self, state, a)))
             if isinstance(a, VTuple):
                 return VInt(len(a.items))
             if isinstance(a, VRef):
@@ -890,6 +895,8 @@ class Executor:
                 self.raise_if(state, z3.BoolVal(True), "AttributeError")
             raise Unsupported("attribute %s on object %r" % (attr, o.cls))
         if isinstance(a, VSym):
+            if attr == "addr" and self.spec_mode:
+                return VInt(a.t)        # the record's address (spec language only)
             sh = self.reg.shapes.get(a.shape)
             if sh is not None and attr not in sh.fields:
                 ext = sh.methods.get(attr)
@@ -927,6 +934,8 @@ class Executor:
             return VFunc("builtin", a.kind + "." + attr, self_val=a)
         if isinstance(a, VABytes):
             return VFunc("builtin", "bytes." + attr, self_val=a)
+        if isinstance(a, VListView):
+            return VFunc("builtin", "listview." + attr, self_val=a)
         if isinstance(a, VNoneT):
             self.raise_if(state, z3.BoolVal(True), "AttributeError")
         if isinstance(a, VOpaque):
@@ -1203,13 +1212,19 @@ class Executor:
         return self.call(state, fv, args, kwargs, node=e)
 
     def star_args(self, state, sv):
+        if isinstance(sv, VUnion):
+            return [StarArgs(sv)]       # length not statically known
         if isinstance(sv, VNoneT):
             self.raise_if(state, z3.BoolVal(True), "TypeError")
         if isinstance(sv, (VDyn, VOpaque)):
             return [StarArgs(sv)]
+        if isinstance(sv, VRef) and self.obj(state, sv).kind == "list" and self.obj(state, sv).items is None:
+            return [StarArgs(sv)]
         return self.iter_concrete(state, sv)
 
     def star_kwargs(self, state, kv):
+        if isinstance(kv, VUnion):
+            return {"**": kv}
         if isinstance(kv, VRef):
             o = self.obj(state, kv)
             if o.kind == "dict" and o.d is not None:
